@@ -9,6 +9,7 @@ mod rng;
 
 mod c01;
 mod c02;
+mod c12;
 mod faults;
 
 use engine::{Property, RunCfg, Tier};
@@ -27,6 +28,7 @@ fn build(id: &str, ctx: &Ctx) -> Option<Property> {
     Some(match id {
         "C01" => c01::build(ctx),
         "C02" => c02::build(ctx),
+        "C12" => c12::build(ctx),
         _ => return None,
     })
 }
